@@ -31,6 +31,7 @@ type c19Case struct {
 	PassSizes  []int    `json:"scripted_pass_sizes,omitempty"`     // scripted delegate: size of pass k (cyclic)
 	FailPass   int      `json:"scripted_pass_that_fails_to_start"` // 0: none; k: the k-th GenerateRequests call returns an error
 	FailOn     bool     `json:"and_every_later_pass_fails_too"`
+	LongFail   bool     `json:"failures_watched_for_seconds,omitempty"` // hundreds of consecutive failed starts: still no busy loop
 	IntervalMs int      `json:"rescan_interval_ms"`
 	ReadLagUs  int      `json:"consumer_lag_us_per_request"` // a slow consumer stretches the pass
 	CancelPass int      `json:"cancel_in_pass"`              // cancel while pass number CancelPass (>=3) is under way, or ...
@@ -211,6 +212,9 @@ func c19Check(c c19Case) *kit.Verdict {
 			failedAt = pass
 			// observe for a while: no busy loop of delegate calls
 			obs := 6*interval + 30*time.Millisecond
+			if c.LongFail && c.FailOn {
+				obs = 2500 * time.Millisecond
+			}
 			t0 := time.Now()
 			drained := 0
 			tm := time.After(obs)
@@ -352,6 +356,10 @@ func TestC19Live(t *testing.T) {
 				if rapid.IntRange(0, 2).Draw(t, "fail") == 0 {
 					c.FailPass = rapid.IntRange(2, 4).Draw(t, "failpass")
 					c.FailOn = rapid.Bool().Draw(t, "failon")
+					if c.FailOn && rapid.IntRange(0, 2).Draw(t, "longfail") == 0 {
+						// a delegate that keeps failing for seconds (hundreds of retries at a short interval)
+						c.LongFail, c.IntervalMs = true, rapid.SampledFrom([]int{2, 3}).Draw(t, "long-interval")
+					}
 				}
 			}
 			if rapid.IntRange(0, 2).Draw(t, "lag") == 0 {
